@@ -44,6 +44,19 @@ CHECKS = {
     note=("Trusted: TLC, the separating-axis criterion for convex sets in the plane, exactness of the maps. Monotone pieces are judged by "
           "necessary conditions (area + witnesses), not by an exact tiling criterion. Scope: <= 14 vertices per polygon, coordinates 0..12."),
     technique="TLA+ exact tiling predicates; TLC-generated polygon pools; recorded calls validated by TLC (trace validation)", design_ref="DESIGN.md 5 C10"),
+ "C20": dict(
+    text=("Trace_Memo.tla is the memo machine (a call key never maps to two result digests); the same seeded workload - Boolean "
+          "operations, unary_union, clip, triangulations, monotone subdivision, stitching, convex / concave / k-nearest hulls, outlier "
+          "scores and ensembles, rayon iterators over the Multi* types, and the parametric families of Families.tla with 2*10^4..10^5 "
+          "segments (beyond the overlay engine's parallel thresholds) - is recorded in fresh processes under RAYON_NUM_THREADS = 1, 2, "
+          "3, 8, 16, twice per process, and the concatenated trace is validated as one chain; family results must also have the "
+          "closed-form area that TLC proved against unit-cell counting. Determinism.tla model-checks the design alternatives "
+          "(index- vs completion-ordered merge of W workers, sorted vs hash iteration) over all interleavings: only index/sorted "
+          "satisfies ResultIsFunctionOfInput; the traces decide which variant the code is."),
+    note=("Trusted: TLC; a 64-bit digest stands for the output bits. Schedules inside a run are sampled by the OS, not enumerated: the "
+          "exhaustive part is the design model (3 workers, 4-5 chunks), the binding is the multi-process trace. The overlay engine's "
+          "internals are not modelled."),
+    technique="TLA+ memo machine: chained trace validation of multi-process determinism runs + TLC model of merge / iteration order", design_ref="DESIGN.md 5 C20"),
  "C18": dict(
     text=("PolySession.tla is the state machine of Polygon / LineString / Rect under the public constructor and mutator calls "
           "(closures = edit sequences + Ok/Err exit). TLC model-checks RingsClosed and RectOrdered over all histories within the "
